@@ -322,8 +322,18 @@ func ruleSkeleton(c *Ctx) *RuleResult {
 	r.Instances++
 	{
 		fn := c.A.Search
-		pc := callsTo(fn, c.A.Parse)
 		ec := callsTo(fn, c.A.Exec)
+		// the call that produced the node argument (Parse itself or a thin wrapper around it)
+		var pc []*ssa.Call
+		if len(ec) == 1 {
+			for _, a := range ec[0].Call.Args {
+				if ex, isEx := a.(*ssa.Extract); isEx && c.isASTNode(a.Type()) {
+					if call, isCall := ex.Tuple.(*ssa.Call); isCall {
+						pc = append(pc, call)
+					}
+				}
+			}
+		}
 		ok := false
 		if len(pc) == 1 && len(ec) == 1 {
 			for _, rf := range *pc[0].Referrers() {
